@@ -243,6 +243,7 @@ def main(argv):
     #     in a function whose source text changed: reported as violations with the solver's reason (no failing input)
     base = load_baseline(prop)
     sha_now = {i['function']: i['sha256'] for i in infos}
+    for i in infos: sha_now.update(i.get('inlined', {}))
     reported = {name for _, _, name in violations}
     if base and not refuted:
         for v in undec:
@@ -260,12 +261,31 @@ def main(argv):
                                           'the solver gave no counter-model and the bounded search found no failing input'))
             json.dump(rec, open(rp, 'w'), indent=1, default=str)
             violations.append((rp, False, v.name))
+    # --- a function that was verified on the baseline tree and can no longer be brought under contract (it left the supported
+    #     subset or the contract no longer matches) after its source changed: its obligations are undischarged
+    if base and not refuted:
+        for u in und:
+            f = u['function']; fn = repo.funcs.get(f)
+            if f not in base or fn is None or not base[f].get('sha256') or base[f]['sha256'] == fn.sha256: continue
+            name = '%s/%s/contract-no-longer-applies' % (prop, f.split(':')[1])
+            if name in reported or match_known(prop, name): continue
+            wit = next((x for x in fails if (x.get('function') or '').split('.')[-1] in f), None) or (fails[0] if fails else None)
+            rp = os.path.join(VERIF, 'replays', prop, hashlib.sha1(name.encode()).hexdigest()[:12] + '.json')
+            rec = dict(property=prop, obligation=name, confirmed=bool(wit), function=dict(qualname=f, sha256_now=fn.sha256, sha256_baseline=base[f]['sha256']),
+                       verifier=dict(backend='pyvc', result='undecided', reason=u['reason'],
+                                     note='every obligation of this function was discharged on the baseline tree; on the changed source the function can no longer be verified'))
+            if wit: rec.update(kind=wit.get('kind'), input=wit.get('input'), expected=wit.get('expected'), observed=wit.get('observed'))
+            json.dump(rec, open(rp, 'w'), indent=1, default=str)
+            violations = [x for x in violations if 'bounded-stand-in' not in x[2]] if wit else violations
+            violations.append((rp, bool(wit), name)); reported.add(name)
     wall = time.time() - t0
     write_evidence(prop, tier, seed, spec, vcs, infos, und, hres, backends, wall, len(violations))
     if os.environ.get('PYVC_WRITE_BASELINE') and not violations and not undec and not und and not refuted:
         os.makedirs(os.path.join(VERIF, 'baseline'), exist_ok=True)
         bl = {}
-        for i in infos: bl[i['function']] = dict(sha256=i['sha256'], proved=[])
+        for i in infos:
+            bl[i['function']] = dict(sha256=i['sha256'], proved=[])
+            for k, h in i.get('inlined', {}).items(): bl.setdefault(k, dict(sha256=h, proved=[]))
         for v in vcs:
             if vcmod.status(v) == 'proved' and v.expect != 'sat': bl.setdefault(v.func, dict(sha256='', proved=[]))['proved'].append(v.name)
         for k in bl: bl[k]['proved'] = sorted(set(bl[k]['proved']))
